@@ -104,6 +104,42 @@ def map_thick(case):
     prove("name", lay["name"] == run.data[0].name)
 
 
+@unit("C11", "map.thick.oblique", targets=[K.MAP + ":map", "osyris.plot.direction:get_direction"],
+      uses=["evaluate_on_grid@map", "VectorBasis@direction"], cases=[{"label": "sum,z_given,normal_vector", "op": "sum", "zres": "given"}],
+      replay=NM.replay_c11, max_paths=64)
+def map_thick_oblique(case):
+    """thick map on an arbitrary plane (basis by the contract of VectorBasis): every depth sample is sound and complete,
+    and the kernel precondition holds, by the lemma script of C03.map.thin.oblique extended with the depth coordinate"""
+    run, zres = run_thick(case, direction="vector")
+    if run.raised is not None:
+        core.cover("raised_no_cells")
+        return
+    core.cover("mapped")
+    kc = run.kc
+    core.assume(SV.lift(kc.nz) >= 1)
+    wx, dz = run.win.magnitude, run.dz.magnitude
+    j, i = run.pixel()
+    k = core.fresh_int("k", 0)
+    core.assume(k < kc.nz)
+    px, py = SV.lift(run.out.x.elem((i,))), SV.lift(run.out.y.elem((j,)))
+    wf = c03.window_facts(run, j, i, px, py)
+    # the depth coordinate of sample k: the k-th element of the (opaque) depth linspace
+    st, sp, nm, formula = core.cur().counter["@linspace"][2]
+    Z = SV(snp._linspace_fn(st, sp, nm, core.term(k)), "r")
+    snp.reveal_linspace(k)
+    fz = Z * kc.nz == (k + 0.5) * dz - 0.5 * dz * kc.nz
+    prove("depth_sample.formula", fz)
+    inz = c03.abs_le(Z, dz / 2)
+    core.lemma("depth_sample.inside_slab", [fz, k >= 0, k < kc.nz, dz > 0, SV.lift(kc.nz) >= 1], inz)
+    q = run.sample(px, py, Z)
+    h = kc.last(k, j, i)
+    m_hit = run.sigma(h)
+    ax_hit = core.implies(h >= 0, kc.contains(h, k, j, i))
+    core.lemma("sample.hit_cell_contains_sample_point", [ax_hit] + run.unit_facts(), core.implies(h >= 0, run.contains(m_hit, q)))
+    c03.complete_oblique(run, kc, j, i, q, px, py, wf, "sample.", k=k, Z=Z, z_facts=[inz, dz > 0])
+    c03.kernel_pre_oblique(run, kc, j, i, "", k=k, Zpos=Z)
+
+
 @unit("C11", "map.thick.per_layer_operation", targets=[K.MAP + ":map"], uses=["evaluate_on_grid@map"],
       cases=[{"label": "mean+sum", "ops": ("mean", None), "call": "sum"}, {"label": "nanmax+min", "ops": ("nanmax", None), "call": "min"},
              {"label": "sum+mean,vector_first", "ops": ("sum", "mean"), "call": "max", "vector": True}],
